@@ -115,7 +115,9 @@ CLAIMED = {
         "normal and on exceptional exit. _capture_for_swap captures only the thread's own override; InternalEnvironDict.set_locally / "
         "del_locally / __setitem__ and the real Env._set_item / Env._del_item in thread-local mode never touch G (including the write to a "
         "`sync` partner; the recursion carries a termination variant); Env.__contains__ and Env.__getitem__ agree: `[]` raises KeyError "
-        "exactly when `in` is False, with the top-most overlay deciding and DELETE_VAR masking.",
+        "exactly when `in` is False, with the top-most overlay deciding and DELETE_VAR masking. "
+        "Bounded stand-in (not proved): every nesting of <= 3 (thorough 4) scopes out of 6 forms (kwargs / `other` / overlay / DELETE_VAR mask / new variable) with a normal or "
+        "exceptional exit at each level, an assignment to another variable inside, and an observer thread at the innermost point; views: in, [], get, detype.",
    note="Unverified: preemption between statements of swap / two threads inside _set_item on G; threading.local itself; worker threads "
         "copying the spawner's overrides (get/set_swapped_values); iteration and detype views (C10); $UPDATE_OS_ENVIRON mirroring; swap relies "
         "on ASSUMED stronger clauses of _set_item/_del_item (valid value, no sync partner, variable still known at exit) and on with-body "
